@@ -101,6 +101,9 @@ def dist_grid(draw, prof, role):
     vals = [grid_value(draw, prof, positive=positive, grid=g) for _ in range(n)]
     if role in ("arrival", "cct") and vals[0] == 0.0:
         vals[0] = 0.5
+    if kind == "seq" and role in ("arrival", "service") and prof.numeric == "grid" and _flag(draw, 0.2):
+        # a combined distribution with a stateful operand (the sum stays on the grid)
+        return ["comb", "add", ["seq", vals], ["det", draw(st.sampled_from([0.0, 0.25, 0.5]))]]
     if kind == "seq":
         if role == "arrival" and prof.numeric != "decgrid" and "zero_service" in prof.allowed and _flag(draw, 0.12):
             vals[0] = 0.0          # first arrival exactly at t = 0 (the other values keep the stream's mean positive)
